@@ -13,10 +13,10 @@ extra_checks = {"C01a": ["C10"], "C03b": ["C16"], "C06b": ["C07"], "C07a": ["C14
                 "C01f": ["C03"], "C03f": ["C01"], "C09f": ["C18"], "C18e": ["C09"], "C12e": ["C04"], "C04e": ["C13"], "C13f": ["C04", "C07"],
                 "C10f": ["C07"], "C07f": ["C01"], "C06f": ["C07"], "C14f": ["C07"],
                 "C01g": ["C03"], "C03g": ["C18"], "C04h": ["C18"], "C09h": ["C05"], "C13h": ["C07"], "C02h": ["C19"], "C17g": ["C08"], "C12h": ["C04"],
-                "C04g": ["C12"], "C01h": ["C03"], "C07g": ["C06"]}
+                "C04g": ["C12"], "C01h": ["C03"], "C07g": ["C06"], "C02g": ["C18"]}
 # seeds whose own property's check does not observe the mechanism; the named check is the one that decides
 decided_by = {"C09d": "C18", "C02d": "C12", "C09f": "C18", "C18e": "C09",
-              "C01g": "C03", "C03g": "C18", "C04h": "C18", "C09h": "C05", "C13h": "C07"}
+              "C01g": "C03", "C03g": "C18", "C04h": "C18", "C09h": "C05", "C13h": "C07", "C02g": "C18", "C02h": "C19"}
 only = [a for a in sys.argv[1:] if not a.startswith("--")]
 for prop in sorted(os.listdir(SRC)):
     if not prop.startswith("C") or not os.path.isdir(os.path.join(SRC, prop)):
